@@ -223,7 +223,7 @@ func runC04(rc *RunCtx, i int) {
 			}
 			q := bs.NewQuery().MatchPrefilter(bs.MinMax(key, c)).Build()
 			e := w.Eng[er.Intn(len(w.Eng))]
-			ctx, cancel := context.WithTimeout(context.Background(), 60*time.Second)
+			ctx, cancel := context.WithTimeout(context.Background(), core.Patience)
 			res := world.RunQuery(ctx, e, q)
 			cancel()
 			rc.Res.Eval(1)
@@ -264,7 +264,7 @@ func runC04(rc *RunCtx, i int) {
 		}
 		e := w.Eng[er.Intn(len(w.Eng))]
 		rc.Res.Eval(1)
-		ctx, cancel := context.WithTimeout(context.Background(), 60*time.Second)
+		ctx, cancel := context.WithTimeout(context.Background(), core.Patience)
 		res := world.RunQuery(ctx, e, q)
 		cancel()
 		rc.Res.Count("engine_rows_required", 1)
